@@ -1,5 +1,5 @@
 """Which units exist, and what each claimed property covers / does not cover (copied into evidence)."""
-UNITS = ['budget', 'scalars', 'events', 'location', 'live', 'reader', 'snippet', 'quoting', 'typed', 'base64', 'crop', 'robotics']
+UNITS = ['budget', 'scalars', 'events', 'location', 'live', 'reader', 'snippet', 'quoting', 'typed', 'base64', 'crop', 'robotics', 'plain']
 
 GLOBAL_ASSUMPTIONS = [
     'Verus 0.2026.09.13 and its bundled Z3 are sound; the extractor rewrite rules R0..R17 preserve meaning (DESIGN.md 3.2)',
@@ -168,10 +168,15 @@ PROPS = {
             'write_quoted: for every string the emitted text is `"` + the YAML 1.2 escape of every character + `"` (named escapes, \\xHH for the remaining C0/C1/DEL, \\uFEFF for the BOM, \\N \\L \\P for NEL/LS/PS); no character that needs escaping is ever written raw (lemma_escape_is_safe)',
             'write_single_quoted: `\'` + the text with every single quote doubled + `\'`',
             'first_line_leading_spaces: the number of leading spaces of the first line that is not empty (blank-only lines count as content), 0 if there is none',
+            'plain-safety predicates (unit plain, src/ser_quoting.rs) against YAML 1.2 rules for plain scalars written independently of the code (plain_reads_back: non-empty, no leading / trailing blank, no leading BOM, first character not an indicator, `-` `?` `:` only before a non-blank, no C0 control / DEL, no `: ` / trailing `:` / ` #`, no flow indicators in flow context): is_plain_safe(s) implies it; is_plain_value_safe(s) implies it unless an edge needs quotes (has_unsafe_plain_edge, which is exactly trailing blank or leading BOM)',
+            'is_ambiguous(s) is exactly: empty, ~, null/true/false in any case, `<<`, a document marker (`---` / `...` alone or followed by a blank), [+-]?.inf/.nan in any case, or numeric-looking; nothing ambiguous is ever plain-safe',
+            'write_plain_or_quoted / write_plain_or_quoted_value (the decision points): the raw text is written only when it is not ambiguous and reads back as itself in that context; otherwise exactly the double-quoted escape or (quote_all) the single-quoted form',
         ],
-        not_covered=['plain-safety predicates (is_plain_safe, is_plain_value_safe, is_numeric_looking regex), block scalar selection and chomping indicators (serialize_str, write_folded_block), float text (zmij), the reader side of the round trip',
-                     'observed on the pinned tree and NOT detected by any contract here: strings with a trailing blank and block-scalar indentation indicators in nested positions do not round-trip (reported by an independent reviewer while seeding C12)'],
-        assumptions=['fmt::Write is an append-only sink (contracts/quoting.shim.rs); write! with {:02X}/{:04X} prints upper-case hex; char::is_control is category Cc'],
+        not_covered=['the numeric-looking regex (uninterpreted) and parse_yaml11_bool (std string comparisons; uninterpreted), block scalar selection and chomping indicators (serialize_str, write_folded_block), the key serializer of KeyScalarSink (src/ser.rs:2828), float text (zmij), the reader side of the round trip',
+                     'observed and NOT detected by any contract here: block-scalar indentation indicators in nested positions (reported by an independent reviewer while seeding C12); the trailing-blank observation of the same reviewer became F12 (detected by unit plain, fixed)'],
+        assumptions=['fmt::Write is an append-only sink (contracts/quoting.shim.rs); write! with {:02X}/{:04X} prints upper-case hex; char::is_control is category Cc',
+                     'std str operations of the predicates behave as their shims say (contracts/plain.shim.rs); that plain_reads_back is SUFFICIENT for a YAML reader is not proved (no reader semantics) - it is the list of necessary conditions of the YAML spec',
+                     'UTF-8 self-synchronisation axiom (contracts/crop.spec.rs)'],
     ),
     'C20': dict(
         covered=[
